@@ -161,6 +161,12 @@ func run(ctx *Ctx) *Result {
 			cases = append(cases, genSplits("r", 11, true, splitForms[:3], 12)...)
 		}
 		cases = append(cases, genLate(150)...)
+		// banners on the echo of the OTHER commands sent while the reload is scheduled
+		if ctx.Thorough() {
+			cases = append(cases, genFixed(1)...)
+		} else {
+			cases = append(cases, genFixed(4)...)
+		}
 		cases = append(cases, genFaults(ctx.Thorough())...)
 		// quick tier: the placements that end in a time-out of the real code (known finding) cost > 1 s each
 		if !ctx.Thorough() {
@@ -182,7 +188,7 @@ func run(ctx *Ctx) *Result {
 	baseIdx := map[string]int{}
 	all := append([]Case{}, cases...)
 	for i := range cases {
-		hasBanner := false
+		hasBanner := len(cases[i].Fixed) > 0 || cases[i].SpecialIsBanner != ""
 		for _, b := range cases[i].Behav {
 			if b.Form != "" {
 				hasBanner = true
@@ -247,6 +253,7 @@ var expectedPred = map[string]bool{
 	"fresh_prompt_probe_swallows_reply_of_second_half":   true,
 	"abort_inside_schedule_reload_leaves_reload_pending": true,
 	"late_fresh_prompt_missed_by_tryprompt":              true,
+	"two_prompt_banner_on_plain_sendcmd":                 true,
 }
 
 // first half of a joined line with a probing banner: the real code times out (known finding)
@@ -289,7 +296,7 @@ func judge(ctx *Ctx, res *Result, drv *Nadrv, c *Case, o *WOutcome, base *WOutco
 		res.Count("dialogue-variant:save-question")
 	}
 	if !again {
-		res.Eval(caseKey(c), nBanner > 0 || nBad > 0 || len(c.Special) > 0)
+		res.Eval(caseKey(c), nBanner > 0 || nBad > 0 || len(c.Special) > 0 || len(c.Fixed) > 0)
 		res.Sample(in)
 	}
 
@@ -317,10 +324,27 @@ func judge(ctx *Ctx, res *Result, drv *Nadrv, c *Case, o *WOutcome, base *WOutco
 	if hf := strings.Split(hyp, ","); len(hf) == 3 {
 		hClean, hNoProbe = hf[0] == "1", hf[1] == "1"
 	}
+	faulty := len(c.Special) > 0 && c.SpecialIsBanner == ""
+	twoPromptFixed := c.SpecialIsBanner == "two-prompt"
+	if b, ok := c.Fixed["configure terminal"]; ok && (b.Form == "A" || b.Form == "C") {
+		twoPromptFixed = true
+	}
+	for l, b := range c.Fixed {
+		res.Count("fixed-line-banner:" + l + ":" + b.Form)
+	}
+	if c.SpecialIsBanner != "" {
+		res.Count("reload-dialogue-banner:" + c.SpecialIsBanner)
+	}
 	switch {
-	case len(c.Special) > 0:
+	case faulty:
 		res.Count("theorem-domain:fault-injection (guard theorems only)")
 		hClean = false
+	case twoPromptFixed:
+		res.Count("theorem-domain:two-prompt banner on a plain SendCmd (F-C15e)")
+	case len(c.Fixed) > 0 && hClean && hNoProbe:
+		res.Count("theorem-domain:inside (banner on a fixed line)")
+	case c.SpecialIsBanner != "":
+		res.Count("theorem-domain:reload dialogue banner (dialogues only)")
 	case hClean && hNoProbe:
 		res.Count("theorem-domain:inside")
 	case hClean:
@@ -397,7 +421,7 @@ func judge(ctx *Ctx, res *Result, drv *Nadrv, c *Case, o *WOutcome, base *WOutco
 	}
 	// rearm_on_one_minute: every send whose answer carried a 1:00 banner is followed by exactly one re-arm
 	for i, ch := range o.Changes {
-		if len(c.Special) > 0 {
+		if faulty || twoPromptFixed {
 			break
 		}
 		halves := strings.Split(ch, "\n")
@@ -445,14 +469,16 @@ func judge(ctx *Ctx, res *Result, drv *Nadrv, c *Case, o *WOutcome, base *WOutco
 	}
 	// banner_invariant: same outcome as the banner-free run of the real code (scripted device
 	// without injected faults: the domain of the theorem)
-	if base != nil && len(c.Special) == 0 {
+	if base != nil && !faulty {
 		bls, _ := applyLines(base.Lines)
 		same := base.Status == o.Status &&
 			strings.Join(dropRearm(ls), "|") == strings.Join(dropRearm(bls), "|") &&
 			nonBlankLines(errText(base.Stderr)) == nonBlankLines(errText(o.Stderr))
 		if !same {
 			sig := map[string]any{"pred": "banner_changes_outcome"}
-			if hClean && hNoProbe {
+			if twoPromptFixed {
+				sig = map[string]any{"pred": "two_prompt_banner_on_plain_sendcmd"}
+			} else if hClean && hNoProbe {
 				// inside the domain of banner_invariant_partial: never expected
 				sig = map[string]any{"pred": "banner_changes_outcome_inside_proved_domain"}
 			} else if hClean {
